@@ -27,6 +27,19 @@ type Src struct {
 	n      int
 	// Oddity gate: 0 = only valid traffic with semantic variety, 1 = about one oddity per exchange, 2 = many
 	Level int
+	// Avoid reports whether a known finding (key of known_findings.json) is to be excluded by construction;
+	// Excluded collects the keys for which a generated value was repaired.
+	Avoid    func(key string) bool
+	Excluded []string
+}
+
+// avoid reports (and records) that the class of known finding key has to be repaired.
+func (s *Src) avoid(key string) bool {
+	if s.Avoid != nil && s.Avoid(key) {
+		s.Excluded = append(s.Excluded, key)
+		return true
+	}
+	return false
 }
 
 // NewSrc draws the seed of one input.
